@@ -119,7 +119,7 @@ def record(seed, n, procs=16):
 
 def run_into(rep, prop, tier, seed):
     wanted = CLAUSES[prop]
-    n = 200 if tier == "quick" else 3000
+    n = 200 if tier == "quick" else 1500
     # every property judges its own slice of the family space: a sweep over the properties covers twelve times the families of one check
     events = record(seed + 7919 * sorted(CLAUSES).index(prop), n)
     judged = [e for e in events if e[0] != "BuildFailed"]
